@@ -31,6 +31,10 @@ class NodeNA(Persistent):
         return self.__dict__.get('_v_na', ())
 
 
+class NodeNASub(NodeNA):
+    """inherits __getnewargs__ (hasattr(klass, '__getnewargs__'), not in klass.__dict__)"""
+
+
 GONE_DIR = os.path.join(os.path.dirname(os.path.abspath(__file__)), 'c14_gone_src')
 sys.path.insert(0, GONE_DIR)
 try:
